@@ -126,6 +126,8 @@ def gen_case(r, maxports=4, globs=True, allow_collisions=True):
             schema[port] = {l[-1]: {'_default': leaves[l]} for l in vs}
             if kind == 'out':
                 schema[port]['_output'] = True
+            elif r.random() < 0.15:
+                schema[port]['_divider'] = 'set'      # a branch-level divider declared in the port (not a variable)
             topo[port] = list(rel_path(ploc, B))
         elif kind == 'dictpath':
             vs = r.sample(bl, r.randint(1, len(bl)))
